@@ -22,10 +22,11 @@
    on a boundary.
 
    Calls are tuples (first element = kind, the rest integers):
-     <<"Advance", rem, x, s, c>>   <<"SetDir", t>> (t = -1: chord direction, t >= 0: unit
-     vector of momentum token t)   <<"Find", max, d, b>> (b in {0,1})   <<"MoveTo", x>>
-     (move_internal(pos), pos on the axis)   <<"MoveToD", len, t>> (move_internal(pos) to a
-     point `len` away along momentum direction t: the zero-progress bump)   <<"MoveB">>
+     <<"Advance", rem, x, s, c>>   <<"SetDir", ch, toks>> (ch = 1: the direction is the chord
+     of the latest advance; toks = the momentum tokens whose unit vector it equals)
+     <<"Find", max, d, b>> (b in {0,1})   <<"MoveTo", x>> (move_internal(pos), pos on the
+     axis)   <<"MoveToD", len, toks>> (move_internal(pos) to a point `len` away along the
+     direction of momentum tokens toks: the zero-progress bump)   <<"MoveB">>
      <<"MoveI", dist>> and <<"Cross">> exist in the vocabulary but the propagator never
      issues them. *)
 EXTENDS Integers, Sequences, FiniteSets, SequencesExt
@@ -86,7 +87,7 @@ Iter(P, L, R) ==
 IterCalls(P, L, R) ==
   LET br == Branch(P, L, R) IN
      << <<"Advance", L.rem, L.x, R.s, R.c>> >>
-  \o (IF R.c >= P.minsub THEN << <<"SetDir", -1>> >> ELSE <<>>)
+  \o (IF R.c >= P.minsub THEN << <<"SetDir", 1, <<>> >> >> ELSE <<>>)
   \o << <<"Find", R.c + P.delta, R.d, B2I(R.b)>> >>
   \o (IF br = "accept" \/ (br = "commit" /\ ~ToBoundary(P, L, R))
         THEN << <<"MoveTo", L.x + R.c>> >> ELSE <<>>)
@@ -111,41 +112,71 @@ AfterLoop(P, L) ==
       roundup |-> roundup, stuck |-> stuck,
       path |-> L.path + (IF stuck THEN bd ELSE 0),
       calls |-> (IF moveb THEN << <<"MoveB">> >> ELSE <<>>)
-                \o << <<"SetDir", L.mom>> >>
-                \o (IF stuck THEN << <<"MoveToD", bd, L.mom>> >> ELSE <<>>)]
+                \o << <<"SetDir", 0, <<L.mom>> >> >>
+                \o (IF stuck THEN << <<"MoveToD", bd, <<L.mom>> >> >> ELSE <<>>)]
 
 -----------------------------------------------------------------------------
 (* Navigator protocol monitor (OrangeTrackView's CELER_EXPECTs, DESIGN 4.4): a geometry
    protocol state g = [has, hasb, nd, onb, ok] folded over the calls. *)
 NavInit(onb) == [has |-> FALSE, hasb |-> FALSE, nd |-> 0, onb |-> onb, ok |-> TRUE]
-NavStep(g, call) ==
+\* zero = the value (model: 0, real mode: the rank) of the length 0
+NavStep(g, call, zero) ==
   LET k == call[1] IN
   CASE k = "Advance" -> g
     [] k = "SetDir"  -> [g EXCEPT !.has = FALSE, !.hasb = FALSE]
     [] k = "Find"    -> [g EXCEPT !.has = TRUE, !.hasb = (call[4] = 1), !.nd = call[3],
-                                  !.ok = @ /\ call[2] > 0 /\ call[3] <= call[2]]
+                                  !.ok = @ /\ call[2] > zero /\ call[3] <= call[2] /\ call[3] >= zero]
     [] k \in {"MoveTo", "MoveToD"} -> [g EXCEPT !.has = FALSE, !.hasb = FALSE, !.onb = FALSE]
     [] k = "MoveB"   -> [g EXCEPT !.ok = @ /\ g.has /\ g.hasb, !.has = FALSE, !.hasb = FALSE,
                                   !.onb = TRUE]
-    [] k = "MoveI"   -> [g EXCEPT !.ok = @ /\ g.has /\ call[2] > 0 /\ call[2] <= g.nd
+    \* move_internal(dist): needs a pending step, 0 < dist <= next step (strictly less when
+    \* the next step ends on a surface); the pending step shrinks by an amount the rank
+    \* abstraction cannot express, so it is dropped (a second MoveI needs a new Find)
+    [] k = "MoveI"   -> [g EXCEPT !.ok = @ /\ g.has /\ call[2] > zero /\ call[2] <= g.nd
                                        /\ (call[2] # g.nd \/ ~g.hasb),
-                                  !.nd = @ - call[2], !.onb = FALSE]
+                                  !.has = FALSE, !.hasb = FALSE, !.onb = FALSE]
     [] OTHER         -> [g EXCEPT !.ok = FALSE]          \* Cross or unknown: never allowed
-NavRun(g, calls) == FoldLeft(NavStep, g, calls)
+NavRun(g, calls, zero) == FoldLeft(LAMBDA acc, call : NavStep(acc, call, zero), g, calls)
 
 -----------------------------------------------------------------------------
 (* Result clauses (API level).  res = [dist, bnd, loop]; the other arguments are facts of
    the same call.  In the scripted/model world lengths are exact integers; in the real world
    the same predicates are evaluated on ranks (order-preserving), with steplo/stephi the
    ranks of step*(1 -/+ 1e-12) -- "up to the code's own rounding rule" (soft_equal). *)
-Outcomes(res, step, bump, noprogress) ==
+Outcomes(res, steplo, step, stephi, bump, noprogress) ==
   {o \in {"full", "looping", "boundary", "bumped"} :
-     CASE o = "full"     -> ~res.bnd /\ ~res.loop /\ res.dist = step
+     CASE o = "full"     -> ~res.bnd /\ ~res.loop /\ steplo <= res.dist /\ res.dist <= stephi
        [] o = "looping"  -> res.loop /\ ~res.bnd /\ res.dist < step
        [] o = "boundary" -> res.bnd /\ ~res.loop
-       [] o = "bumped"   -> ~res.bnd /\ ~res.loop /\ res.dist = bump /\ bump < step /\ noprogress}
-Trichotomy(res, step, bump, noprogress) == Cardinality(Outcomes(res, step, bump, noprogress)) = 1
+       [] o = "bumped"   -> ~res.bnd /\ ~res.loop /\ res.dist = bump /\ bump < steplo /\ noprogress}
+Trichotomy(res, steplo, step, stephi, bump, noprogress) ==
+  Cardinality(Outcomes(res, steplo, step, stephi, bump, noprogress)) = 1
 DistanceBounds(res, zero, stephi) == zero < res.dist /\ res.dist <= stephi
+
+(* Facts derived from a recorded call list (scripted or real): iterations = the Advance/Find
+   pairs in order; an iteration is ACCEPTED when its Find reports no boundary.  The last
+   iteration, when its Find reports a boundary, is the halving exit iff the call started on a
+   boundary, nothing was accepted before and the distance is below the bump distance;
+   otherwise it is the commit.  The momentum token of the last committed iteration (0 = the
+   momentum at the start) is the one the final set_dir must use. *)
+Finds(calls) == SelectSeq(calls, LAMBDA c : c[1] = "Find")
+NumAccepted(calls) == Len(SelectSeq(calls, LAMBDA c : c[1] = "Find" /\ c[4] = 0))
+CommittedToken(calls, onb0, bump) ==
+  LET f == Finds(calls)  n == Len(f) IN
+  IF n = 0 THEN 0
+  ELSE IF f[n][4] = 0 THEN n
+  ELSE IF onb0 /\ f[n][3] < bump /\ \A i \in 1..(n - 1) : f[i][4] = 1
+       THEN 0                                   \* halving exit: nothing was ever committed
+  ELSE n
+SetDirs(calls) == SelectSeq(calls, LAMBDA c : c[1] = "SetDir")
+\* every in-loop set_dir uses the chord, the last one the committed momentum
+DirDiscipline(calls, onb0, bump) ==
+  LET sd == SetDirs(calls)  n == Len(sd) IN
+  /\ n >= 1
+  /\ \A i \in 1..(n - 1) : sd[i][2] = 1
+  /\ \E j \in DOMAIN sd[n][3] : sd[n][3][j] = CommittedToken(calls, onb0, bump)
+  /\ calls[Len(calls)][1] \in {"SetDir", "MoveToD", "MoveTo"}
+  /\ \A i \in 1..(Len(calls) - 2) : calls[i][1] = "SetDir" => calls[i + 1][1] = "Find"
 
 \* bounds of the termination argument
 Log2Up(n, m) == CHOOSE k \in 0..31 : m * (2 ^ k) >= n /\ \A j \in 0..(k - 1) : m * (2 ^ j) < n
